@@ -3,6 +3,7 @@
 package props
 
 import (
+	"bytes"
 	"context"
 	gosql "database/sql"
 	"encoding/json"
@@ -27,6 +28,7 @@ import (
 func init() {
 	register("C20", "exploration", C20)
 	workerMains["c20ref"] = c20RefWorker
+	workerMains["c20cold"] = c20ColdWorker
 }
 
 // c20RefWorker prints, from a FRESH process, the result signature of every catalogue operation on
@@ -143,7 +145,15 @@ func C20(run *hx.Run) {
 		}
 		seq = append(seq, m)
 	}
+	// a file with the rarer schema features (DEFAULTs that need conversion, collations, expression index)
+	cold := filepath.Join(dir, "cold.sqlite")
+	if err := o.Exec(cold, "CREATE TABLE d(a INTEGER PRIMARY KEY, n INTEGER DEFAULT '42', r REAL DEFAULT '1.5', t TEXT DEFAULT 7, u NUMERIC DEFAULT ' 12 ')", "INSERT INTO d(a) VALUES(1),(2),(3),(7)",
+		"ALTER TABLE d ADD COLUMN m NUMERIC DEFAULT '0x10'", "ALTER TABLE d ADD COLUMN f DEFAULT 1000", "CREATE INDEX d_n ON d(n DESC, t COLLATE NOCASE)",
+		"CREATE TABLE w(k TEXT COLLATE RTRIM, v, PRIMARY KEY(k DESC)) WITHOUT ROWID", "INSERT INTO w VALUES('x ', 1),('y', 2)", "CREATE UNIQUE INDEX w_v ON w(v)"); err != nil {
+		run.Inconclusive("cold-start file: " + err.Error())
+	}
 	o.Close()
+	c20ColdStart(run, []string{cold, paths[1], paths[3]}, map[bool]int{false: 3, true: 12}[run.Thorough()])
 	// database/sql reference
 	sqlSig := func(sq *gosql.DB, q string) string {
 		rows, _, err := sqlRows(sq, context.Background(), q)
@@ -316,4 +326,121 @@ func C20(run *hx.Run) {
 	}
 	_ = filepath.Join
 	reportRaces(run, "C20")
+}
+
+// c20SharedKeys are handed to every goroutine of the cold-start worker as they are: a Key is an argument, the
+// library has no business writing to it.
+var c20SharedKeys = []sqlittle.Key{{7}, {int32(3)}, {uint(2)}, {true}, {uint32(5), "x"}, {float32(1.5)}, {int64(1)}}
+
+// c20ColdWorker: the FIRST thing this process does with the library is to use it from many goroutines at once,
+// each with its own handles, released together - what is set up lazily on first use (compiled patterns, tables,
+// memoised definitions) meets its race here, and nowhere else: every other part of the check has used the
+// library sequentially before its goroutines start. Prints one signature per goroutine.
+func c20ColdWorker(args []string) {
+	n := 16
+	sigs := make([]string, n)
+	start := make(chan struct{})
+	var wg sync.WaitGroup
+	for g := 0; g < n; g++ {
+		wg.Add(1)
+		go func(g int) {
+			defer wg.Done()
+			<-start
+			h := fnv.New64a()
+			for _, path := range args {
+				hi, err := sqlittle.Open(path)
+				if err != nil {
+					fmt.Fprintf(h, "open %v|", err)
+					continue
+				}
+				low, err := sdb.OpenFile(path)
+				if err != nil {
+					hi.Close()
+					fmt.Fprintf(h, "openfile %v|", err)
+					continue
+				}
+				var tables []string
+				if low.RLock() == nil {
+					tables, _ = low.Tables()
+					low.RUnlock()
+				}
+				sort.Strings(tables)
+				for _, t := range tables {
+					cols, err := hi.Columns(t)
+					fmt.Fprintf(h, "%s cols=%v err=%v|", t, cols, err)
+					rows, err, pm := collectSelect(hi, t, cols)
+					fmt.Fprintf(h, "select %s|", resultSig(opResult{rows: rows, err: err, panicMsg: pm}))
+					for _, k := range c20SharedKeys {
+						prow, perr, ppm := collectPK(hi, t, k, cols)
+						fmt.Fprintf(h, "pk %s|", resultSig(opResult{rows: prow, err: perr, panicMsg: ppm}))
+					}
+					if low.RLock() == nil {
+						if sc, err := low.Schema(t); err == nil {
+							for _, ix := range sc.Indexes {
+								low.RUnlock()
+								var got []hx.Row
+								ierr := hi.IndexedSelect(t, ix.Index, func(r sqlittle.Row) { got = append(got, hx.CloneRow(r)) }, cols...)
+								fmt.Fprintf(h, "ix %s %s|", ix.Index, resultSig(opResult{rows: got, err: ierr}))
+								for _, k := range c20SharedKeys {
+									var eq []hx.Row
+									eerr := hi.IndexedSelectEq(t, ix.Index, k, func(r sqlittle.Row) { eq = append(eq, hx.CloneRow(r)) }, cols...)
+									fmt.Fprintf(h, "eq %s|", resultSig(opResult{rows: eq, err: eerr}))
+								}
+								low.RLock()
+							}
+						}
+						low.RUnlock()
+					}
+				}
+				hi.Close()
+				low.Close()
+			}
+			for _, in := range []string{"CREATE TABLE t(a INTEGER PRIMARY KEY, n INTEGER DEFAULT '42', b TEXT COLLATE NOCASE UNIQUE)", "CREATE INDEX i ON t(a, lower(b) DESC) WHERE a > 1", "SELECT a, * FROM t"} {
+				fmt.Fprintf(h, "parse %+v|", parseOnce(in))
+			}
+			sigs[g] = fmt.Sprintf("%x", h.Sum64())
+		}(g)
+	}
+	close(start)
+	wg.Wait()
+	b, _ := json.Marshal(sigs)
+	fmt.Println(string(b))
+}
+
+// c20ColdStart runs the cold-start worker a few times (each a fresh process) and compares the goroutines' signatures.
+func c20ColdStart(run *hx.Run, paths []string, times int) {
+	exe := os.Getenv("VERIF_VRUN")
+	if exe == "" {
+		exe, _ = os.Executable()
+	}
+	for i := 0; i < times; i++ {
+		cmd := exec.Command(exe, append([]string{"worker", "c20cold"}, paths...)...)
+		cmd.Env = append(os.Environ(), fmt.Sprintf("GOMAXPROCS=%d", []int{16, 4, 2}[i%3]))
+		var stderr bytes.Buffer
+		cmd.Stderr = &stderr
+		outb, runErr := cmd.Output()
+		var sigs []string
+		lines := strings.Split(strings.TrimSpace(string(outb)), "\n")
+		if err := json.Unmarshal([]byte(lines[len(lines)-1]), &sigs); err != nil || len(sigs) == 0 {
+			msg := clip(stderr.String(), 1500)
+			if strings.Contains(msg, "DATA RACE") {
+				continue // counted from the detector's log below
+			}
+			run.Violation("C20/cold-start/crash", fmt.Sprintf("a fresh process whose first use of the library is 16 goroutines at once (own handles each) did not finish: %v; %s", runErr, msg), nil)
+			continue
+		}
+		run.Eval(len(sigs))
+		run.DistinctN(len(sigs))
+		same := true
+		for _, s := range sigs {
+			if s != sigs[0] {
+				same = false
+			}
+		}
+		if !same {
+			run.Violation("C20/cold-start/results-differ", fmt.Sprintf("a fresh process whose first use of the library is 16 goroutines at once, each with its own handles on the same files: the goroutines' result signatures differ: %v", sigs), nil)
+		} else {
+			run.See("cold_start_processes", "16 goroutines agree")
+		}
+	}
 }
